@@ -177,6 +177,7 @@ class Verdict(object):
         self.outcome = None
         self.measures = {}       # name -> value (max-merged)
         self.counts = {}
+        self.sample = None
 
     def bad(self, key, detail):
         self.viol.append((key, detail))
@@ -409,6 +410,11 @@ def run_item(item, tier, feed):
             ncalls += 1
             hres[_gkey(gen)] = res
             v = judge(spec, n, xk, 'Hessian', method, None, gen, orc, res)
+            if n == 3 and xk == 'mixed' and gen[0] == 'default' and method in ('central', 'forward') and \
+                    spec in (('quad', 0), ('esq',), ('ridge', 'exp', 'sin'), ('cplx', ('esq',), ('ridge', 'sin', 'cosh'))):
+                v.sample = dict(call='Hessian(f, method=%r, full_output=True)(%r)' % (method, x), f=rh.show(spec), n=n,
+                                observed=res.get('val') if res['status'] == 'ok' else res['exc'], exact=orc.H,
+                                S=orc.S, worst_err_over_S=v.measures.get('worst/EH/' + method))
             feed((spec, n, xk, 'Hessian', method, None, gen), _case(spec, n, xk, 'Hessian', method, None, gen), v,
                  _rank(spec, n, 'Hessian', method, None, gen))
         for order in HD_ORDERS:
@@ -446,6 +452,8 @@ def work(chunk, tier='quick'):
                 acc.maxi(k, val)
             for k, c in v.counts.items():
                 acc.count(k, c)
+            if v.sample is not None:
+                acc.sample(v.sample)
             for key, detail in v.viol:
                 cj2 = dict(cj)
                 cj2['key'] = key
